@@ -104,15 +104,26 @@ def go_test(pkg, run, env_extra, timeout, cwd=None, race=False):
 
 # ------------------------------------------------------------------------------------------- Coq build
 
-def coq_build():
-    """Full .vo build of the project (incremental make). Returns (ok, log)."""
+def coq_build(prop=None):
+    """Full .vo build (incremental make) of the property's files and everything they depend on
+    (all files when prop is None). Returns (ok, log)."""
     with Lock("coq"):
+        sh([os.path.join(VERIF, "bin", "mkcoqproject")])
         if not os.path.exists(os.path.join(COQ, "Makefile")) or \
                 os.path.getmtime(os.path.join(COQ, "Makefile")) < os.path.getmtime(os.path.join(COQ, "_CoqProject")):
             rc, out = sh("coq_makefile -f _CoqProject -o Makefile", cwd=COQ)
             if rc != 0:
                 return False, out
-        rc, out = sh("timeout 3000 make -j16 TIMED= 2>&1", cwd=COQ, timeout=3100)
+        targets = ""
+        if prop is not None:
+            d = PROPS[prop]["coq"]
+            fl = os.path.join(COQ, d, "FILES")
+            names = [l.strip() for l in open(fl) if l.strip()] if os.path.exists(fl) else []
+            for extra in PROPS[prop].get("coq_extra", []):
+                fl2 = os.path.join(COQ, extra, "FILES")
+                names += [l.strip() for l in open(fl2) if l.strip()] if os.path.exists(fl2) else []
+            targets = " ".join(n[:-2] + ".vo" for n in names)
+        rc, out = sh("timeout 3000 make -j16 %s 2>&1" % targets, cwd=COQ, timeout=3100)
         return rc == 0, out
 
 
@@ -237,15 +248,22 @@ def eval_cases(outdir):
 # ------------------------------------------------------------------------------------------- findings
 
 def load_findings():
-    path = os.path.join(VERIF, "known_findings.json")
-    if not os.path.exists(path):
-        return []
-    return json.load(open(path))["findings"]
+    """known_findings.json is the committed list; known_findings.d/*.json are per-property fragments merged into it."""
+    out = []
+    for path in [os.path.join(VERIF, "known_findings.json")] + sorted(glob.glob(os.path.join(VERIF, "known_findings.d", "*.json"))):
+        if os.path.exists(path):
+            out.extend(json.load(open(path))["findings"])
+    return out
 
 
 # ------------------------------------------------------------------------------------------- registry
 
 PROPS = {}
+COMMON_TB = [
+    "Coq 8.16.1 kernel (coqc, full .vo build); vm_compute used for case evaluation and refuted-witness lemmas; native_compute not used",
+    "Go harness (/verif/harness, overlaid with go test -overlay under build tag verif) and its generators",
+    "cases_*.v printers in /verif/harness/verifutil (Go values -> Coq terms)",
+]
 
 
 def register(pid, **kw):
@@ -254,10 +272,11 @@ def register(pid, **kw):
 
 def load_registry():
     import importlib.util
-    spec = importlib.util.spec_from_file_location("registry", os.path.join(VERIF, "lib", "registry.py"))
-    mod = importlib.util.module_from_spec(spec)
-    spec.loader.exec_module(mod)
-    mod.setup(register)
+    for path in sorted(glob.glob(os.path.join(VERIF, "lib", "registry.d", "*.py"))):
+        spec = importlib.util.spec_from_file_location("registry_" + os.path.basename(path)[:-3], path)
+        mod = importlib.util.module_from_spec(spec)
+        spec.loader.exec_module(mod)
+        mod.setup(register, COMMON_TB)
 
 
 # ------------------------------------------------------------------------------------------- main
@@ -320,7 +339,7 @@ def run_check(prop, tier, seed, only=None):
             violations.append(("translator failed on the working tree: " + gen_log[-1500:], None, False))
 
     # 2. build
-    ok, build_log = coq_build()
+    ok, build_log = coq_build(prop)
     broken_files = []
     if not ok:
         for m in re.finditer(r'File "\./([^"]+)", line (\d+)', build_log):
